@@ -37,4 +37,177 @@ def zeroIfSeg : Seg :=
 example : combine 2 1 [] [zeroIfSeg] = .ok [] := by decide +kernel
 example : (sortedCandidates 2 1 (inputSegs [] [zeroIfSeg])).length = 1 := by decide +kernel
 
+/-! ## 2. terminates within a polynomial bound -/
+
+/-- input size: Σ over all given segments of 2·(AS entries + peer entries) -/
+def inputSize (cores nonCores : List Seg) : Nat :=
+  ((inputSegs cores nonCores).map fun s => s.seg.size).sum
+
+/-- **Polynomial bound, all inputs.**  The search of `get_paths` queues / returns at most `(E+1)³`
+candidate solutions, `E` = number of edges of the multigraph, and `E ≤ inputSize` (linear in the
+input).  `path()` is then called once per candidate.  The model's search is the `bfsRounds = 4` rounds
+after which the queue of the real `while let Some(..) = queue.pop_front()` loop is empty
+(`search_terminates`). -/
+theorem poly_bound (src dst : Nat) (cores nonCores : List Seg) :
+    (sortedCandidates src dst (inputSegs cores nonCores)).length ≤ (inputSize cores nonCores + 1) ^ 3 := by
+  unfold sortedCandidates sortSols
+  rw [List.length_mergeSort]
+  refine Nat.le_trans (candidates_length _ _ _) ?_
+  apply Nat.pow_le_pow_left
+  have := graphOf_length (inputSegs cores nonCores)
+  unfold inputSize
+  omega
+
+/-- the queue is empty after `MAX_SEGMENTS + 1` rounds: more rounds add nothing, for any graph -/
+theorem search_terminates (g : List GEdge) (src dst k : Nat) :
+    bfs g dst (bfsRounds + k) [Sol.new (.as src)] = candidates g src dst := by
+  unfold candidates bfsRounds MAX_SEGMENTS
+  have hnil : ∀ (fr : List Sol), (∀ s ∈ fr, 3 ≤ s.edges.length) → ∀ n, bfs g dst n fr = [] := by
+    intro fr h n
+    cases n with
+    | zero => rfl
+    | succ n =>
+      have : fr.flatMap (extend g) = [] := by
+        rw [List.flatMap_eq_nil_iff]; intro s hs; exact extend_nil_of_three (h s hs)
+      simp [bfs, this, bfs_nil]
+  have hstep : ∀ (fr : List Sol) (d : Nat), (∀ s ∈ fr, s.edges.length = d) →
+      ∀ s ∈ (fr.flatMap (extend g)).filter (fun s => !decide (s.cur = .as dst)), s.edges.length = d + 1 := by
+    intro fr d h s hs
+    rcases List.mem_flatMap.mp (List.mem_filter.mp hs).1 with ⟨p, hp, hsp⟩
+    rcases mem_extend hsp with ⟨e, _, _, _, rfl⟩
+    simp [h p hp]
+  have hadd : ∀ (n : Nat) (fr : List Sol) (d : Nat), (∀ s ∈ fr, s.edges.length = d) → 3 ≤ d + n →
+      bfs g dst (n + k) fr = bfs g dst n fr := by
+    intro n
+    induction n with
+    | zero =>
+      intro fr d hd h3
+      rw [hnil fr (fun s hs => by have := hd s hs; omega), hnil fr (fun s hs => by have := hd s hs; omega)]
+    | succ n ih =>
+      intro fr d hd h3
+      have e1 : n + 1 + k = (n + k) + 1 := by omega
+      rw [e1]
+      simp only [bfs]
+      rw [ih _ (d + 1) (hstep fr d hd) (by omega)]
+  exact hadd 4 _ 0 (by intro s hs; simp at hs; subst hs; rfl) (by omega)
+
+/-! ## 3. offered paths encode, parse back and are consistent with their own metadata -/
+
+/-- **Self-consistency of every offered path, all inputs.**  For every path `p` that `combine` returns:
+* it encodes (`StandardPath::wire_valid`: 1..3 segments, 1..63 hop fields each, size ≤ the SCION header
+  limit) and the encoding parses back (`viewOk`: the length fields fit their 6-bit fields);
+* `src_ia` / `dst_ia` are the ASes of the first / last metadata interface;
+* every metadata interface has a non-zero id that is the ingress or egress id of a hop field of the path;
+* the expiry (`metadata.expiration` = `ScionPath::expiration()`) is the earliest expiry of its hop
+  fields (info-field timestamp + ExpTime, saturated at `u32::MAX` like the data plane does);
+* the MTU never exceeds `u16::MAX` (the initial value). -/
+theorem outputs_self_consistent {src dst : Nat} {cores nonCores : List Seg} {out : List Path}
+    (h : combine src dst cores nonCores = .ok out) {p : Path} (hp : p ∈ out) :
+    encodeOk p.segs = true ∧ viewOk p.segs = true ∧
+    1 ≤ p.segs.length ∧ p.segs.length ≤ MAX_SEGMENTS ∧
+    (∀ s ∈ p.segs, 1 ≤ s.hops.length ∧ s.hops.length ≤ MAX_SEGMENT_HOPS) ∧
+    requiredSize p.segs ≤ PATH_MAX_SIZE ∧
+    p.ifs.head?.map (·.1) = some p.src ∧ p.ifs.getLast?.map (·.1) = some p.dst ∧
+    (∀ i ∈ p.ifs, i.2 ≠ 0 ∧ ∃ s ∈ p.segs, ∃ hf ∈ s.hops, hf.ingress = i.2 ∨ hf.egress = i.2) ∧
+    (∀ s ∈ p.segs, ∀ hf ∈ s.hops, p.expiry ≤ hopExpiry s hf) ∧
+    (p.expiry = u32Max ∨ ∃ s ∈ p.segs, ∃ hf ∈ s.hops, p.expiry = hopExpiry s hf) := by
+  rcases offered_from_candidate h hp with ⟨_, _, s, hs, hsp⟩
+  rcases solPath_path hsp with ⟨mtu, ifs, segs, expiry, f, l, hne, hep, hex, henc, hview, hf, hl, rfl⟩
+  have hlen := edgeParts_length _ _ _ _ _ _ hep
+  have hsol := candidates_solOk _ _ _ s hs
+  have hexp := pathExpiry_spec hex (encodeOk_hops_ne henc)
+  refine ⟨henc, hview, ?_, ?_, ?_, ?_, by simp [hf], by simp [hl], ?_, hexp.1, hexp.2⟩
+  · simp only; rw [hlen]; cases hE : s.edges with
+    | nil => exact absurd hE hne
+    | cons a as => simp
+  · simp only; rw [hlen]; exact hsol.len_le
+  · intro sg hsg
+    have h1 := encodeOk_hops_ne henc sg hsg
+    have h2 := encodeOk_hops_le henc sg hsg
+    refine ⟨?_, h2⟩
+    cases hh : sg.hops with
+    | nil => exact absurd hh h1
+    | cons a as => simp
+  · unfold encodeOk at henc
+    simp only [Bool.and_eq_true, decide_eq_true_eq] at henc
+    exact henc.1.1.1.1
+  · exact edgeParts_ifs _ _ _ _ _ _ hep
+
+/-- non-vacuity: the single up-segment `3 → 2 → 1` read from its leaf offers one path with these
+properties -/
+def upSeg : Seg :=
+  ⟨100, 7, [⟨3, 1500, 0, ⟨63, 0, 31, 1⟩, []⟩, ⟨2, 1400, 1472, ⟨63, 21, 22, 2⟩, []⟩,
+            ⟨1, 9000, 1300, ⟨10, 11, 0, 3⟩, []⟩], 5⟩
+
+example : (combine 1 3 [] [upSeg]).toOption.map (List.map Path.ifs)
+    = some [[(1, 11), (2, 22), (2, 21), (3, 31)]] := by decide +kernel
+example : (combine 1 3 [] [upSeg]).toOption.map (List.map fun p => [p.src, p.dst, p.mtu, p.expiry])
+    = some [[1, 3, 1300, 3812]] := by decide +kernel
+
+/-! ## 4. segments that cannot contribute are ignored -/
+
+/-- **Garbage independence, all inputs.**  Add any segments `badCores`, `badNonCores` (not already
+present) to a segment set.  If no complete candidate solution of the enlarged search uses an edge of an
+added segment — they "contribute no edge chain" from `src` to `dst` — then the result (paths, their
+order, their bytes and metadata) is exactly the result without them. -/
+theorem garbage_independent (src dst : Nat) (cores nonCores badCores badNonCores : List Seg)
+    (hbc : ∀ b ∈ badCores, (⟨true, b⟩ : InSeg) ∉ inputSegs cores nonCores)
+    (hbn : ∀ b ∈ badNonCores, (⟨false, b⟩ : InSeg) ∉ inputSegs cores nonCores)
+    (hunused : ∀ s ∈ candidates (graphOf (inputSegs (cores ++ badCores) (nonCores ++ badNonCores))) src dst,
+      ∀ e ∈ s.edges, e.seg ∈ inputSegs cores nonCores) :
+    combine src dst (cores ++ badCores) (nonCores ++ badNonCores) = combine src dst cores nonCores := by
+  by_cases hne : src = dst
+  · simp [combine, hne]
+  · have h1 : (inputSegs (cores ++ badCores) (nonCores ++ badNonCores)).filter
+        (fun s => decide (s ∈ inputSegs cores nonCores)) = inputSegs cores nonCores := by
+      have e1 : inputSegs (cores ++ badCores) (nonCores ++ badNonCores)
+          = cores.map (⟨true, ·⟩) ++ (badCores.map (⟨true, ·⟩) ++ (nonCores.map (⟨false, ·⟩) ++ badNonCores.map (⟨false, ·⟩))) := by
+        simp [inputSegs, List.map_append, List.append_assoc]
+      rw [e1]
+      simp only [List.filter_append]
+      have f1 : (cores.map (⟨true, ·⟩ : Seg → InSeg)).filter (fun s => decide (s ∈ inputSegs cores nonCores))
+          = cores.map (⟨true, ·⟩) := by
+        rw [List.filter_eq_self]; intro a ha; simp [inputSegs]; left; simpa using ha
+      have f2 : (nonCores.map (⟨false, ·⟩ : Seg → InSeg)).filter (fun s => decide (s ∈ inputSegs cores nonCores))
+          = nonCores.map (⟨false, ·⟩) := by
+        rw [List.filter_eq_self]; intro a ha; simp [inputSegs]; right; simpa using ha
+      have f3 : (badCores.map (⟨true, ·⟩ : Seg → InSeg)).filter (fun s => decide (s ∈ inputSegs cores nonCores)) = [] := by
+        rw [List.filter_eq_nil_iff]; intro a ha
+        rcases List.mem_map.mp ha with ⟨b, hb, rfl⟩
+        simpa using hbc b hb
+      have f4 : (badNonCores.map (⟨false, ·⟩ : Seg → InSeg)).filter (fun s => decide (s ∈ inputSegs cores nonCores)) = [] := by
+        rw [List.filter_eq_nil_iff]; intro a ha
+        rcases List.mem_map.mp ha with ⟨b, hb, rfl⟩
+        simpa using hbn b hb
+      rw [f1, f2, f3, f4]
+      simp [inputSegs]
+    have hs := sortedCandidates_garbage src dst _ _ h1 hunused
+    rcases combine_eq src dst (cores ++ badCores) (nonCores ++ badNonCores) hne with ⟨ps', hps', hc'⟩
+    rcases combine_eq src dst cores nonCores hne with ⟨ps, hps, hc⟩
+    rw [hs, hps] at hps'
+    injection hps' with hpe
+    rw [hc', hc, hpe]
+
+/-- in particular segments without AS entries are ignored (the documented behaviour of `add_segment`) -/
+theorem empty_segments_ignored (src dst : Nat) (cores nonCores badCores badNonCores : List Seg)
+    (hc : ∀ b ∈ badCores, b.entries = []) (hn : ∀ b ∈ badNonCores, b.entries = [])
+    (hbc : ∀ b ∈ badCores, (⟨true, b⟩ : InSeg) ∉ inputSegs cores nonCores)
+    (hbn : ∀ b ∈ badNonCores, (⟨false, b⟩ : InSeg) ∉ inputSegs cores nonCores) :
+    combine src dst (cores ++ badCores) (nonCores ++ badNonCores) = combine src dst cores nonCores := by
+  apply garbage_independent src dst cores nonCores badCores badNonCores hbc hbn
+  intro s hs e he
+  have hg := (candidates_solOk _ _ _ s hs).edges_mem e he
+  have hpos := (graphOf_edgeOk hg).sc_lt
+  have hmem := (mem_graphOf hg).1
+  simp only [inputSegs, List.map_append, List.mem_append, List.mem_map] at hmem ⊢
+  rcases hmem with (⟨a, ha, hae⟩ | ⟨a, ha, hae⟩) | (⟨a, ha, hae⟩ | ⟨a, ha, hae⟩)
+  · exact Or.inl ⟨a, ha, hae⟩
+  · exfalso; rw [← hae] at hpos; simp [Seg.len, hc a ha] at hpos
+  · exact Or.inr ⟨a, ha, hae⟩
+  · exfalso; rw [← hae] at hpos; simp [Seg.len, hn a ha] at hpos
+
+/-- non-vacuity of `garbage_independent`: the all-zero-interface segment and an empty segment added to
+`upSeg` leave the result untouched -/
+example : combine 1 3 [⟨0, 0, [], 9⟩] [upSeg, zeroIfSeg] = combine 1 3 [] [upSeg] := by decide +kernel
+
 end ScionVerif.Comb
